@@ -29,6 +29,15 @@ def sig_matches(entry_sig, sig):
     return all(sig.get(k) == v for k, v in entry_sig.items()) and set(sig) == set(entry_sig)
 
 
+def _all_parts(mod, prop, tier):
+    """the property's own parts plus the shared default-arguments part (mc/props/defaults.py), if the table has rows for it"""
+    parts = list(mod.parts(tier))
+    from mc.props import defaults
+    if any(r[0] == prop for r in defaults.table()):
+        parts.append(defaults.part(prop))
+    return parts
+
+
 def main(argv):
     if len(argv) < 1:
         print(__doc__)
@@ -53,7 +62,7 @@ def main(argv):
         print(*a, file=sys.stderr, flush=True)
 
     log(f"[{prop}] tier={tier} seed={seed} praatio={src} nproc={engine.NPROC}")
-    parts = mod.parts(tier)
+    parts = _all_parts(mod, prop, tier)
     results = engine.run_parts(parts, seed=seed, log=log)
     wall = time.time() - t0
     return report(prop, mod, tier, seed, parts, results, wall, src)
@@ -213,7 +222,7 @@ def _fresh(x):
 def replay(prop, mod, path):
     with open(path) as fd:
         rec = json.load(fd)
-    parts = {p.name: p for p in mod.parts(rec.get("tier", "quick"))}
+    parts = {p.name: p for p in _all_parts(mod, rec.get("property", prop), rec.get("tier", "quick"))}
     part = parts[rec["part"]]
     case = _fresh(engine.parse_case(rec["case"]))  # option strings equal to, but not identical with, interned literals
     res1 = engine._safe_check(part, case)
